@@ -102,7 +102,31 @@ def run_translator():
     return info
 
 
+def gen_coqproject():
+    """_CoqProject lists every .v file present (a property file only once the proof
+    files it requires exist), so that a half-finished property never blocks the others."""
+    lines = ["-Q Model TauModel", "-Q Proofs TauProofs", "-Q Properties TauProps", "-Q Extract TauExtract"]
+    for d in ("Model", "Proofs", "Extract"):
+        for f in sorted(os.listdir(os.path.join(COQ, d))):
+            if f.endswith(".v"):
+                lines.append("%s/%s" % (d, f))
+    pd = os.path.join(COQ, "Properties")
+    for f in sorted(os.listdir(pd)):
+        if not f.endswith(".v"):
+            continue
+        text = open(os.path.join(pd, f), encoding="utf-8").read()
+        need = re.findall(r"From TauProofs Require\s+(?:Import\s+)?([\w ]+)\.", text)
+        mods = [m for grp in need for m in grp.split()]
+        if all(os.path.exists(os.path.join(COQ, "Proofs", m + ".v")) for m in mods):
+            lines.append("Properties/%s" % f)
+    text = "\n".join(lines) + "\n"
+    proj = os.path.join(COQ, "_CoqProject")
+    if (not os.path.exists(proj)) or open(proj).read() != text:
+        open(proj, "w").write(text)
+
+
 def coq_makefile():
+    gen_coqproject()
     mk = os.path.join(COQ, "Makefile")
     proj = os.path.join(COQ, "_CoqProject")
     if (not os.path.exists(mk)) or os.path.getmtime(mk) < os.path.getmtime(proj):
@@ -136,19 +160,59 @@ def parse_property_log(out):
     The property files are written as
         Check thm.                 -> "thm\n     : statement"
         Print Assumptions thm.     -> "Closed under the global context" | "Axioms:\n..."
+    Returns (checks: name -> statement, closed: int, axioms: set of names,
+             per_theorem: name -> sorted axiom list or [] when closed).
     """
-    out = out.replace("\r", "")
+    lines = out.replace("\r", "").split("\n")
     checks = {}
-    for m in re.finditer(r"^(\w[\w.']*)\n\s+:\s(.*?)(?=^\S)", out, re.S | re.M):
-        checks[m.group(1)] = " ".join(m.group(2).split())
-    closed = len(re.findall(r"Closed under the global context", out))
+    per = {}
     axioms = set()
-    for m in re.finditer(r"^Axioms:\n((?:.*\n)*?)(?=^\S|\Z)", out, re.M):
-        for line in m.group(1).splitlines():
-            mm = re.match(r"^([\w.']+)\s*:", line)
-            if mm:
-                axioms.add(mm.group(1))
-    return checks, closed, axioms
+    closed = 0
+    cur = None          # theorem whose Check output was seen last
+    mode = None         # None | "check" | "axioms"
+    buf = []
+    n = len(lines)
+    k = 0
+
+    def flush():
+        nonlocal buf
+        if cur is not None and buf:
+            checks[cur] = " ".join(" ".join(buf).split())
+        buf = []
+    while k < n:
+        ln = lines[k]
+        nxt = lines[k + 1] if k + 1 < n else ""
+        if re.match(r"^[\w.']+$", ln) and re.match(r"^     : ", nxt):
+            flush()
+            cur = ln
+            mode = "check"
+            buf = [nxt[7:]]
+            k += 2
+            continue
+        if ln.startswith("Closed under the global context"):
+            flush()
+            closed += 1
+            if cur is not None:
+                per[cur] = []
+            mode = None
+        elif ln.startswith("Axioms:"):
+            flush()
+            mode = "axioms"
+            if cur is not None:
+                per[cur] = []
+        elif mode == "check" and ln.startswith(" "):
+            buf.append(ln.strip())
+        elif mode == "axioms" and ln and not ln.startswith(" "):
+            name = ln.split(" ")[0]
+            axioms.add(name)
+            if cur is not None:
+                per[cur].append(name)
+        elif ln and not ln.startswith(" "):
+            flush()
+            mode = None
+        k += 1
+    flush()
+    return checks, closed, axioms, per
 
 
 def audit_sources():
@@ -459,7 +523,7 @@ class Check:
             self.proof_failure = self.proof_failure or {"stage": "property file", "detail": tail_error(out)}
             cov["obligations"] = max(cov["obligations"], 1)
             return False
-        checks, closed, axioms = parse_property_log(out)
+        checks, closed, axioms, per_thm = parse_property_log(out)
         src = strip_coq_comments(open(os.path.join(COQ, "Properties", self.prop + ".v"), encoding="utf-8").read())
         thms = re.findall(r"^(?:Theorem|Example|Lemma|Corollary)\s+([\w']+)", src, re.M)
         cov["obligations"] = len(thms)
@@ -488,6 +552,7 @@ class Check:
         if n_assump < n_real_thms:
             bad.append("Print Assumptions output missing for some theorem (%d < %d)" % (n_assump, n_real_thms))
         cov["axioms_reported"] = sorted(axioms)
+        cov["assumptions_per_theorem"] = {t: (per_thm.get(t) or "closed under the global context") for t in thms if t in per_thm}
         if self.proof_failure is None and bad:
             self.proof_failure = {"stage": "audit", "detail": bad}
         if clean and self.proof_failure is None:
